@@ -213,25 +213,26 @@ NOT_YET = "check not built yet in this session (work in progress); runtime monit
 
 # additions of rounds 7-9 (appended to the technique text; DESIGN.md 7.5 has the detail)
 EXTRA = {
-    'C01': "; purity table of side-effecting unit classes (done actions, client triggers, buffer writers, seeding) with unused outputs; demand-rate operands",
+    'C06': "; deep snapshots of mutable arguments compared after every operation, re-sends judged against the snapshot",
+    'C01': "; purity table of side-effecting unit classes (done actions, client triggers, buffer writers, seeding) with unused outputs; demand-rate operands; random operator units as stateful leaves (one identity per creation, injection search)",
     'C02': "; the same predicates on every emission route (send/load/store/files, /d_recv datagrams in RT and NRT) and on the file / library readers; helpers that fail in their body after their controls exist (control units must partition the table)",
-    'C03': "; run-time populations of converting and defaulting constructors; unit-against-sequence through every operator route",
-    'C04': "; recovered failing bodies (all kept or all dropped), sessions sharing argument objects, float32 edge values bit for bit, hostile parameter names with a renaming differential",
-    'C05': "; prober thread (sched / sched_abs / default-clock play) against busy clocks, failing tasks next to probes, slow AppClock and TempoClock tasks as load, re-arm programs, children started with sched_abs",
+    'C03': "; run-time populations of converting and defaulting constructors; unit-against-sequence through every operator route; reductions (sum, Mix) with type and aliasing oracles",
+    'C04': "; recovered failing bodies (all kept or all dropped), sessions sharing argument objects, float32 edge values bit for bit, hostile parameter names with a renaming differential; object kind of each parameter inside the body and operators applied to parameters",
+    'C05': "; prober thread (sched / sched_abs / default-clock play) against busy clocks, failing tasks next to probes, slow AppClock and TempoClock tasks as load, re-arm programs, children started with sched_abs; routines driven by hand from a plain thread; sched probes aimed at windows in which a clock thread runs a routine; deltas of other numeric classes; restart histories (YieldAndReset) against an exact model",
     'C07': "; independent interval expectation for AppClock routines served by one late tick; clumping paths in the NRT score; sends while a routine step holds the lock",
-    'C08': "; map changes (tempo / etempo / beats) issued from other clocks' tasks; defer(), stop_all(), CmdPeriod.run() incl. from tasks; clear() from a task; relative beats of tempo-clock scheduling; absolute times at the present",
-    'C09': "; exit-action queue with actions that work on the queue during shutdown; score histories with refused entries; clocks as users incl. AppClock judged from call-time intervals",
+    'C08': "; map changes (tempo / etempo / beats) issued from other clocks' tasks; defer(), stop_all(), CmdPeriod.run() incl. from tasks; clear() from a task; relative beats of tempo-clock scheduling; absolute times at the present; callable objects and partials as tasks, error-log trace (every raising wake-up logged, clock thread survives)",
+    'C09': "; exit-action queue with actions that work on the queue during shutdown; score histories with refused entries; clocks as users incl. AppClock judged from call-time intervals; score adds from a re-used scratch bundle",
     'C10': "; slow AppClock tasks as RT load; identical bundles in one wake-up; sched_abs children; further random builtins",
-    'C11': "; concurrent signal while wait() evaluates a slow test (forced window) and FlowVar under yield injection; pause / resume / play / release applied to a parked routine (NRT model)",
-    'C12': "; RT shards for concurrent map changes (total order of lock-held samples) and for wake-ups after failing tasks; tasks scheduled again while pending; exact rational oracle near grid and bar lines",
+    'C11': "; concurrent signal while wait() evaluates a slow test (forced window) and FlowVar under yield injection; pause / resume / play / release applied to a parked routine (NRT model); restart histories: YieldAndReset while scheduled under reset / pause / resume / stop / play from another routine, exact NRT reference model",
+    'C12': "; RT shards for concurrent map changes (total order of lock-held samples) and for wake-ups after failing tasks; tasks scheduled again while pending; exact rational oracle near grid and bar lines; restart histories touching the grid (meter change after a restart, resume / play on the grid)",
     'C13': "; blueprint / independence clause for every Pattern subclass discovered at run time (second stream, alternation, reset, re-embedding, threads, snapshots); tolerance-window edges of accumulating classes",
-    'C14': "; read / modify / read histories on event objects, Rest objects in every key, failed plays followed by repair, player-control histories, tuple keys",
-    'C15': "; effects monitor: trace checker over logging operand functions / streams with state and failures (evaluation counts, exception propagation)",
+    'C14': "; read / modify / read histories on event objects, Rest objects in every key, failed plays followed by repair, player-control histories, tuple keys; pitch input keys given alone; derived pattern objects with original and derivative both played",
+    'C15': "; effects monitor: trace checker over logging operand functions / streams with state and failures (evaluation counts, exception propagation); deterministic comparison grid over int / float spellings; operands a hair beside a multiple with an exact rational reference",
     'C16': "; operations failing half way followed by continued allocation; reserve(); permanent node ids; unused allocator classes observed only",
-    'C17': "; use after free and map symbols in the id ledger; nested bind() blocks against a stack-of-pending-lists model; remaining command-emitting entry points against a stand-in server",
-    'C18': "; real-time shard with responder operations concurrent to UDP / TCP dispatch judged with interval semantics; recording template predicates; failing creations retried; datagrams cut at every offset; receive port = the kernel's view, behind held ports",
-    'C19': "; unit generators in every envelope field (format lists by identity, definition bytes through an independent unit-graph interpreter); re-specification histories changing the segment count",
-    'C20': "; concurrent serialisation, builds inside routines while clocks are busy, every definition serialised twice, objects (Env, lists) shared between builds",
+    'C17': "; use after free and map symbols in the id ledger; nested bind() blocks against a stack-of-pending-lists model; remaining command-emitting entry points against a stand-in server; login histories through the real responder path against an sc3-free id layout",
+    'C18': "; real-time shard with responder operations concurrent to UDP / TCP dispatch judged with interval semantics; recording template predicates; failing creations retried; datagrams cut at every offset; receive port = the kernel's view, behind held ports; responders that share one function object (invocation counts per handler, order where determined)",
+    'C19': "; unit generators in every envelope field (format lists by identity, definition bytes through an independent unit-graph interpreter); re-specification histories changing the segment count; defaulted envelopes in pairs, one changed in place (object independence)",
+    'C20': "; concurrent serialisation, builds inside routines while clocks are busy, every definition serialised twice, objects (Env, lists) shared between builds; source-free fail points (sys.monitoring): a build cut short at a random statement of any callee, then the residue predicates",
 }
 
 
